@@ -28,7 +28,7 @@ pub struct Counting;
 // per-thread counter: the case runs on its own thread, the main thread (watchdog, output) must not be counted
 thread_local! { static ALLOCS: std::cell::Cell<usize> = const { std::cell::Cell::new(0) }; }
 fn bump() { let _ = ALLOCS.try_with(|c| c.set(c.get() + 1)); }
-fn allocs() -> usize { ALLOCS.try_with(|c| c.get()).unwrap_or(0) }
+pub fn allocs() -> usize { ALLOCS.try_with(|c| c.get()).unwrap_or(0) }
 unsafe impl GlobalAlloc for Counting {
     unsafe fn alloc(&self, l: Layout) -> *mut u8 { bump(); System.alloc(l) }
     unsafe fn dealloc(&self, p: *mut u8, l: Layout) { System.dealloc(p, l) }
@@ -240,11 +240,10 @@ fn parse_children(s: &[u8], pos: &mut usize, scripts: &std::collections::HashMap
     out
 }
 
-fn run_one<F: Formatter>(root: &TNode, msg: &[u8], d: &mut TDev, f: &mut F, check_alloc: bool) -> String {
+fn run_one<F: Formatter>(root: &TNode, msg: &[u8], d: &mut TDev, ctx: &mut Context, f: &mut F, check_alloc: bool) -> String {
     d.log.clear(); d.arena.clear(); d.hook.clear();
-    let mut ctx = Context::new();
     let before = allocs();
-    let r = root.run(msg, d, &mut ctx, f);
+    let r = root.run(msg, d, ctx, f);
     let allocs = allocs() - before;
     let hook: Vec<String> = d.hook.iter().map(show_error).collect();
     format!("{} out={} hook={} alloc={} log={}",
@@ -254,9 +253,9 @@ fn run_one<F: Formatter>(root: &TNode, msg: &[u8], d: &mut TDev, f: &mut F, chec
 }
 
 macro_rules! with_cap {
-    ($cap:expr, $root:expr, $msg:expr, $d:expr; $($n:literal)*) => {
+    ($cap:expr, $root:expr, $msg:expr, $d:expr, $ctx:expr; $($n:literal)*) => {
         match $cap {
-            $( $n => { let mut f = ArrayVec::<u8, $n>::new(); run_one($root, $msg, $d, &mut f, true) } )*
+            $( $n => { let mut f = ArrayVec::<u8, $n>::new(); run_one($root, $msg, $d, $ctx, &mut f, true) } )*
             _ => panic!("capacity {} not instantiated", $cap),
         }
     };
@@ -277,14 +276,17 @@ pub fn run(args: &[&str]) -> String {
     let root: TNode = Node::Branch { name: b"ROOT", default: false, sub };
     let mut d = TDev { log: Vec::with_capacity(4096), arena: Vec::with_capacity(1 << 16), hook: Vec::with_capacity(16) };
     let mut out = Vec::new();
+    // ONE Context for all messages of the case, as an instrument keeps one per session: Node::run must not carry
+    // anything from one message to the next in it
+    let mut ctx = Context::new();
     for m in &args[3..] {
         let msg = unhex(m);
         if cap == "v" {
             let mut f: Vec<u8> = Vec::new();
-            out.push(run_one(&root, &msg, &mut d, &mut f, false));
+            out.push(run_one(&root, &msg, &mut d, &mut ctx, &mut f, false));
         } else {
             let c: usize = cap.parse().unwrap();
-            out.push(with_cap!(c, &root, &msg, &mut d;
+            out.push(with_cap!(c, &root, &msg, &mut d, &mut ctx;
                 0 1 2 3 4 5 6 7 8 9 10 11 12 13 14 15 16 17 18 19 20 21 22 23 24 25 26 27 28 29 30 31 32 33 34 35 36 37 38 39 40
                 41 42 43 44 45 46 47 48 49 50 51 52 53 54 55 56 57 58 59 60 61 62 63 64 65 66 67 68 69 70 71 72 73 74 75 76 77 78 79 80
                 96 128 256 1024));
